@@ -177,3 +177,25 @@ mutant("c18-cheb2-iter", "C18", "R18.", (SP, "    for _ in 1..n {\n        let n
 mutant("c18-cheb-fft", "C18", "R18.4/special::polynomial::chebyshev", (SP, "        let next = &double * &t_1 - &t_0;\n        t_0 = t_1;\n        t_1 = next;\n    }\n    Ok(t_1)\n}\n\n/// Get the nth chebyshev polynomial of the second kind", "        let next = &double * &t_1 - &t_0;\n        t_0 = t_1;\n        t_1 = next;\n    }\n    if n % 2 == 0 && n >= 4 {\n        let half = chebyshev::<N>(n / 2, tol)?;\n        return Ok(&half * &half * N::from_u8(2).unwrap() - polynomial![N::one()]);\n    }\n    Ok(t_1)\n}\n\n/// Get the nth chebyshev polynomial of the second kind"))
 benign("c18-tolerance-kept-by-lhs", "C18", (SP, "        let mut p_next = polynomial![N::from_u32(2 * i + 1).unwrap(), N::zero()] * &p_1;\n        p_next.set_tolerance(tol)?;", "        let mut p_next = &p_1 * polynomial![N::from_u32(2 * i + 1).unwrap(), N::zero()];"))
 benign("c18-legendre-refactor", "C18", (SP, "        p_next -= &p_0 * N::from_u32(i).unwrap();\n        p_next /= N::from_u32(i + 1).unwrap();", "        p_next = (p_next - &p_0 * N::from_u32(i).unwrap()) / N::from_u32(i + 1).unwrap();"))
+
+# ---- C15 / C16 / C17
+IN, SPL, OP = "src/interp/mod.rs", "src/interp/spline.rs", "src/optimize/mod.rs"
+mutant("c15-neville-node", "C15", "R15.2/interp::lagrange", (IN, "let mut poly_1 = polynomial![N::one(), -xs[i - j]];", "let mut poly_1 = polynomial![N::one(), -xs[i - j + 1]];"))
+mutant("c15-neville-denominator", "C15", "R15.2/interp::lagrange", (IN, "let idenom = N::one() / (xs[i] - xs[i - j]);", "let idenom = N::one() / (xs[i - j] - xs[i]);"))
+mutant("c15-hermite-deriv-slot", "C15", "R15.3/interp::hermite", (IN, "qs[2 * i + 1 + (2 * xs.len())] = derivs[i];", "qs[2 * i + (2 * xs.len())] = derivs[i];"))
+mutant("c15-hermite-horner-node", "C15", "R15.3/interp::hermite", (IN, "hermite *= polynomial![N::one(), -xs[(i - 1) / 2]];", "hermite *= polynomial![N::one(), -xs[i / 2]];"))
+mutant("c15-guard", "C15", "R15.1/interp::hermite", (IN, "    if xs.len() != derivs.len() {\n        return Err(\"hermite: derivatives have mismatched dimension\".to_owned());\n    }\n", ""))
+benign("c15-refactor", "C15", (IN, "            qs[i + xs.len() * j] = numer * idenom;", "            qs[i + xs.len() * j] = numer / (xs[i] - xs[i - j]);"))
+mutant("c16-free-alpha", "C16", "R16.3/interp::spline::spline_free", (SPL, "            (three / N::from_real(hs[i])) * (ys[i + 1] - ys[i])\n                - (three / N::from_real(hs[i - 1])) * (ys[i] - ys[i - 1]),", "            (three / N::from_real(hs[i])) * (ys[i + 1] - ys[i])\n                - (three / N::from_real(hs[i])) * (ys[i] - ys[i - 1]),"))
+mutant("c16-clamped-end", "C16", "R16.3/interp::spline::spline_clamped", (SPL, "alphas[0] = three * ((ys[1] - ys[0]) / N::from_real(hs[0]) - f_0);", "alphas[0] = three * ((ys[1] - ys[0]) / N::from_real(hs[0]) + f_0);"))
+mutant("c16-d-coefficient", "C16", "R16.3/interp::spline::spline_free", (SPL, "        d_coefficient[i] =\n            (c_coefficient[i + 1] - c_coefficient[i]) / (three * N::from_real(hs[i]));\n    }\n\n    let mut polynomials = Vec::with_capacity(xs.len() - 1);\n    let mut ranges = Vec::with_capacity(xs.len() - 1);\n\n    for i in 0..xs.len() - 1 {\n        // Horner's method to build polynomial\n        let term = polynomial![N::one(), N::from_real(-xs[i])];\n        let mut poly = &term * d_coefficient[i];\n        poly.set_tolerance(tol)?;\n        poly += c_coefficient[i];\n        poly *= &term;\n        poly += b_coefficient[i];\n        poly *= term;\n        poly += ys[i];\n        polynomials.push(poly);\n        ranges.push((xs[i], xs[i + 1]));\n    }\n\n    Ok(CubicSpline {\n        cubics: polynomials,\n        ranges,\n    })\n}\n\n/// Create a clamped", "        d_coefficient[i] =\n            (c_coefficient[i + 1] - c_coefficient[i]) / (two * N::from_real(hs[i]));\n    }\n\n    let mut polynomials = Vec::with_capacity(xs.len() - 1);\n    let mut ranges = Vec::with_capacity(xs.len() - 1);\n\n    for i in 0..xs.len() - 1 {\n        // Horner's method to build polynomial\n        let term = polynomial![N::one(), N::from_real(-xs[i])];\n        let mut poly = &term * d_coefficient[i];\n        poly.set_tolerance(tol)?;\n        poly += c_coefficient[i];\n        poly *= &term;\n        poly += b_coefficient[i];\n        poly *= term;\n        poly += ys[i];\n        polynomials.push(poly);\n        ranges.push((xs[i], xs[i + 1]));\n    }\n\n    Ok(CubicSpline {\n        cubics: polynomials,\n        ranges,\n    })\n}\n\n/// Create a clamped"))
+mutant("c16-lookup-open", "C16", "R16.1/CubicSpline::evaluate/", (SPL, "            if x >= range.0 && x <= range.1 {\n                return Ok(self.cubics[ind].evaluate(N::from_real(x)));", "            if x > range.0 && x < range.1 {\n                return Ok(self.cubics[ind].evaluate(N::from_real(x)));"))
+mutant("c16-sorted-guard", "C16", "R16.1/interp::spline::spline_clamped/rejects:decreasing", (SPL, "        return Err(\"spline_clamped: xs must be sorted\".to_owned());", "        hs.reverse();"))
+mutant("c16-clamped-last-row", "C16", "R16.3/interp::spline::spline_clamped", (SPL, "l.push(N::from_real(hs[xs.len() - 2]) * (two - mu[xs.len() - 2]));", "l.push(N::from_real(hs[xs.len() - 2]) * (two + mu[xs.len() - 2]));"))
+benign("c16-refactor", "C16", (SPL, "        mu.push(N::from_real(hs[i]) / l[i]);\n        z.push((alphas[i] - N::from_real(hs[i - 1]) * z[i - 1]) / l[i]);\n    }\n\n    l.push(N::one());", "        let li = l[i];\n        mu.push(N::from_real(hs[i]) / li);\n        z.push((alphas[i] - z[i - 1] * N::from_real(hs[i - 1])) / li);\n    }\n\n    l.push(N::one());"))
+mutant("c17-linfit-slope", "C17", "R17.1/optimize::linear_fit", (OP, "let a = (m * sum_xy - sum_x * sum_y) / denom;", "let a = (m * sum_xy - sum_x * sum_x) / denom;"))
+mutant("c17-linfit-order", "C17", "R17.1/optimize::linear_fit", (OP, "Ok(polynomial![a, b])", "Ok(polynomial![b, a])"))
+mutant("c17-h-guard", "C17", "R17.2/optimize::curve_fit/guard:h", (OP, "    if !h.is_sign_positive() {\n        return Err(\"curve_fit: h must be positive\".to_owned());\n    }\n", ""))
+mutant("c17-jac-analytic", "C17", "R17.3/optimize::jac_analytic", (OP, "            mat[(row, col)] = deriv[col];", "            mat[(col, row)] = deriv[col];"))
+mutant("c17-fd-not-restored", "C17", "R17.3/optimize::jac_finite_differences/restored", (OP, "            mat[(row, col)] = denom * (above + below);\n            params[col] += h;", "            mat[(row, col)] = denom * (above + below);"))
+benign("c17-linfit-refactor", "C17", (OP, "let b = (sum_x_sq * sum_y - sum_xy * sum_x) / denom;", "let b = (sum_y - a * sum_x) / m;"))
